@@ -52,6 +52,11 @@ struct World {
 static void run_steps(World &wd, const std::vector<J> &steps, JW &ev) {
     for (auto &st : steps) {
         const std::string &op = st["op"].s; wd.out.clear();
+        if (op == "drain") {      // deliver whatever is queued, oldest first, the realtime half first: logged as the deliveries it consists of
+            int guard = 0;
+            while ((!wd.toRT.empty() || !wd.toNRT.empty()) && guard++ < 64) { bool rt = !wd.toRT.empty(); wd.out.clear();
+                ev.obj().kstr("op", rt ? "deliver_rt" : "deliver_nrt"); if (rt) wd.deliver_rt(); else wd.deliver_nrt(); wd.observe(ev); ev.end_obj(); }
+            continue; }
         ev.obj().kstr("op", op);
         if (op == "map") { wd.nrt.map(st["a"].s.c_str(), st["coarse"].b); ev.kstr("a", st["a"].s).kbool("coarse", st["coarse"].b); }
         else if (op == "unmap") { wd.nrt.unMap(st["a"].s.c_str(), st["coarse"].b); ev.kstr("a", st["a"].s).kbool("coarse", st["coarse"].b); }
